@@ -6,7 +6,7 @@
     left-to-right substitution, [apply_function], the environment / parameter /
     workspace / $(WORKSPACE) passes, the staging of texts in both readings
     [stage Model] and [stage Spec], the hygiene predicate [hyg], the monitor
-    [C09_ok]).  Proofs: Expand/PyStrProofs.v, SubstProofs.v, SubstPasses.v;
+    [C09_ok]).  Proofs: Expand/PyStrProofs.v, SubstProofs.v, SubstPasses.v, SubstExists.v;
     concrete witnesses: SubstWitness.v.
 
     [C09_ok c o] says: the observed expansion [o] (every record's name,
@@ -25,7 +25,7 @@
     findings: K4a ([sig_K4a]: a WSREGEX capture swallowed "$", "(" or ")") and
     K4b ([sig_K4b = negb hyg]: token text arises from substituted values). *)
 From MWF Require Import Base.Str Expand.PyStr Expand.Subst Expand.SubstProofs Expand.SubstPasses
-     Expand.SubstWitness.
+     Expand.SubstExists Expand.SubstWitness.
 From Coq Require Import Permutation.
 
 (* ======================================================================== *)
@@ -111,6 +111,16 @@ Print Assumptions seq_eq_sim_unconditional_refuted.
 (* ======================================================================== *)
 (** * The tables of the passes *)
 
+(** Every variable, label and path dependency added to the environment (and
+    not removed afterwards) is an entry "$(name)" |-> value of one of the three
+    tables of the environment pass ([env_pass] = [sim] of labels, then
+    dependencies, then substitutions: C09_env_pass_unfold). *)
+Theorem C09_env_values : forall (ops1 : list env_op) (it : env_item) (ops2 : list env_op),
+  (forall n, In (ERemove n) ops2 -> fst (item_entry it) <> tok n) ->
+  In (item_entry it) (env_entries (env_build (ops1 ++ EAdd it :: ops2))).
+Proof. exact env_build_defines. Qed.
+Print Assumptions C09_env_values.
+
 (** C09_values.  The table of the parameter pass for row [i] is well formed and
     maps $(K), $(K.label), $(K.name) to row [i]'s value / label / name ... *)
 Theorem C09_values : forall (ps : list param) (i : nat) (p : param) (r : str),
@@ -152,17 +162,43 @@ Proof. exact ws_pass_lookup. Qed.
 Print Assumptions C09_ws_lookup.
 
 (** C09_ws_ordinary ... which, for a step that is not a funnel parent, is the
-    workspace of the instance [d'] of that step for the SAME parameter row (or
-    its only instance when it is not parameterised).  Holds of the plan in
-    either reading [m]. *)
+    workspace of the instance [d'] of that step for the SAME combination
+    ([same_combo]: [d'] is the step's only, unparameterised instance, or its row
+    carries the same labels as [d]'s row for the parameters [d'] uses -- the same
+    row in particular).  Holds of the plan in either reading [m]. *)
 Theorem C09_ws_ordinary : forall (m : mode) (c : case) (ds : list desc) (d d' : desc),
   valid_case c = true -> plan m c = Some ds -> In d ds -> In d' ds ->
   ~ In (s_name (d_step d')) (hub_of (d_step d)) ->
   In (s_name (d_step d')) (map fst (d_dirs d)) ->
-  (d_row d' = d_row d \/ d_row d' = None) ->
+  same_combo (c_params c) d d' = true ->
   dir_of (s_name (d_step d')) (d_dirs d) = d_ws d'.
 Proof. exact plan_ws_ordinary. Qed.
 Print Assumptions C09_ws_ordinary.
+
+(** ... and such an instance exists: for every planned instance [d] and every
+    step [n] that [d]'s step depends on ordinarily or whose workspace it refers
+    to (and that is not a funnel parent), the plan holds an instance [d'] of [n]
+    for the same combination, and $(n.workspace) denotes ITS workspace. *)
+Theorem C09_ws_ordinary_exists : forall (m : mode) (c : case) (ds : list desc) (d : desc) (n : str),
+  valid_case c = true -> plan m c = Some ds -> In d ds ->
+  n <> SOURCE -> In n (map fst (d_dirs d)) -> ~ In n (hub_of (d_step d)) ->
+  (In n (ordinary_of (d_step d)) \/ In n (d_refs d)) ->
+  exists d', In d' ds /\ s_name (d_step d') = n /\ same_combo (c_params c) d d' = true /\
+             dir_of n (d_dirs d) = d_ws d'.
+Proof. exact plan_ws_ordinary_exists. Qed.
+Print Assumptions C09_ws_ordinary_exists.
+
+Theorem C09_same_combo_row : forall (ps : list param) (d d' : desc),
+  d_row d' = d_row d -> same_combo ps d d' = true.
+Proof. exact same_combo_same_row. Qed.
+Print Assumptions C09_same_combo_row.
+
+Theorem C09_same_combo_labels : forall (ps : list param) (d d' : desc) (i i' : nat),
+  d_row d = Some i -> d_row d' = Some i' ->
+  (forall k p, In k (d_used d') -> find_param k ps = Some p -> row_label p i = row_label p i') ->
+  same_combo ps d d' = true.
+Proof. exact same_combo_labels. Qed.
+Print Assumptions C09_same_combo_labels.
 
 (** C09_ws_funnel: for a funnel parent ("p_*" / "p*" in depends) it is the
     step's root directory root/p ([msp] = make_safe_path). *)
@@ -182,8 +218,8 @@ Print Assumptions C09_own_workspace.
 
 Theorem C09_own_workspace_dir : forall (m : mode) (c : case) (ds : list desc) (d : desc),
   plan m c = Some ds -> In d ds ->
-  exists u, d_ws d = own_ws (c_root c) (c_params c) (s_name (d_step d)) u (d_row d) /\
-            d_name d = iname (c_params c) (s_name (d_step d)) u (d_row d).
+  d_ws d = own_ws (c_root c) (c_params c) (s_name (d_step d)) (d_used d) (d_row d) /\
+  d_name d = iname (c_params c) (s_name (d_step d)) (d_used d) (d_row d).
 Proof. exact plan_own_ws. Qed.
 Print Assumptions C09_own_workspace_dir.
 
